@@ -4,7 +4,7 @@ import time
 from concurrent.futures import ThreadPoolExecutor
 
 from checks import streams, servers
-from checks.common import swarm
+from checks.common import swarm, exc_choice
 
 ID = 'C16'
 LEVEL = 'exploration'
@@ -28,18 +28,18 @@ def gen(rng, tier):
           'delays': [rng.choice(DELAYS) for _ in range(rng.choice([1, 3, 5]))],
           'return_x': rng.random() < 0.5, 'return_exceptions': rng.random() < 0.6}
     if n and rng.random() < 0.5:
-        st['fail'] = {'idx': sorted(rng.sample(range(n), min(n, rng.choice([1, 1, 2])))), 'exc': rng.choice(['ExcA', 'ExcB', 'ExcC', 'KeyError'])}
+        st['fail'] = {'idx': sorted(rng.sample(range(n), min(n, rng.choice([1, 1, 2])))), 'exc': exc_choice(rng, ['ExcA', 'ExcB', 'ExcC', 'KeyError'])}
     if rng.random() < 0.6:
         st['pre'] = True
         if n and rng.random() < 0.8:
-            st['pre_fail'] = {'idx': sorted(rng.sample(range(n), min(n, rng.choice([1, 1, 2])))), 'exc': rng.choice(['ExcA', 'ExcB', 'KeyError'])}
+            st['pre_fail'] = {'idx': sorted(rng.sample(range(n), min(n, rng.choice([1, 1, 2])))), 'exc': exc_choice(rng, ['ExcA', 'ExcB', 'KeyError'])}
             if rng.random() < 0.4:
                 st['pre_fail']['idx'] = sorted(set(st['pre_fail']['idx']) | {0})
     sc = {'n': n, 'family': family, 'stages': [st], 'src_delays': [rng.choice([0, 0, 0.001])]}
     if family == 'fifo' and n and rng.random() < 0.3:
         # the submitting function itself refuses an element (as Server._enqueue does with ServerBacklogFull): both variants
         # must end the stream with that error after the earlier results - it is not the element's result
-        sc['submit_fail'] = {'idx': rng.randrange(n), 'exc': rng.choice(['ExcA', 'KeyError'])}
+        sc['submit_fail'] = {'idx': rng.randrange(n), 'exc': exc_choice(rng, ['ExcA', 'KeyError'])}
     if family == 'server':
         st['return_x'] = True  # harness needs x to attribute server results
         sc['capacity'] = rng.choice([1, 2, 4, 16])
